@@ -35,7 +35,10 @@ def signing_key(secret, date, region, service):
 
 
 def collapse_ws(v):
-    return " ".join(v.strip().split()) if " " in v.strip() else v.strip()
+    """SigV4 Trim(): white space before and after the value removed, sequential SPACES converted to a single space; every other
+    character - a horizontal tab inside the value included - is kept as it is"""
+    import re
+    return re.sub(" +", " ", v.strip(" \t"))
 
 
 def canonical_query(pairs):
